@@ -86,9 +86,18 @@ def run_shard(spec, ctx):
                         eval_cell(a5, geo, sib, r, 'run', ctx)
         ctx.sample({'cell': c, 'r': r, 'centre': a5.cell_to_lonlat(c)})
     else:
+        from rv import branch
+        bpts = branch.hostile_points(a5, rnd, 120, 100, 60)
+        ctx.counters['branch_boundary_points'] = len(bpts)
         for n in range(spec['n']):
-            kind = ('polar', 'frame', 'antimeridian', 'edge', 'seam', 'equator')[n % 6]
-            p, r = gen.point(rnd, a5, kind, rnd.choice((29, 29, 28, 28, 27)) if rnd.random() < 0.4 else None)
+            kind = ('polar', 'frame', 'antimeridian', 'edge', 'seam', 'equator', 'branch')[n % 7]
+            if kind == 'branch':
+                if not bpts:
+                    continue
+                r = rnd.choice((29, 28, 27, 26, 25, rnd.randint(2, 24)))
+                p = branch.near(rnd, bpts[rnd.randrange(len(bpts))][0], geo.width(r))
+            else:
+                p, r = gen.point(rnd, a5, kind, rnd.choice((29, 29, 28, 28, 27)) if rnd.random() < 0.4 else None)
             try:
                 c = a5.lonlat_to_cell(p, r)
             except Exception as e:
